@@ -220,6 +220,10 @@ theorem tie_src_beacon_Handler_TransitionNewGroup : Gen.ScriptsC03.beacon_Handle
   "  h.crypto.SetInfo(newGroup, newShare)",
   "  h.chain.RemoveCallback(\"transition\")",
   " })",
+  " if last, err := h.chain.Last(ctx); err == nil && last.Round >= targetRound {",
+  "  h.crypto.SetInfo(newGroup, newShare)",
+  "  h.chain.RemoveCallback(\"transition\")",
+  " }",
   "}"
 ] := rfl
 
